@@ -895,12 +895,17 @@ def compile_comprehension(compiler, expr, root, parts, final):
             if p.tag in ("if", "do"):
                 tag_value = compiler.compile(p.value)
             else:
+                # The iterable (or `:setv` value) is evaluated before
+                # the clause's variables exist, so compile it first:
+                # names in it keep their outer meaning.
+                value = compiler.compile(p.value[1])
+                mark = None if is_for else len(scope.seen)
                 tag_value = [
                     compiler._storeize(p.value[0], compiler.compile(p.value[0])),
-                    compiler.compile(p.value[1]),
+                    value,
                 ]
                 if not is_for:
-                    scope.iterator(tag_value[0])
+                    scope.iterator(tag_value[0], mark)
             new_parts.append(Tag(p.tag, tag_value))
         parts = new_parts
 
@@ -1017,6 +1022,15 @@ def compile_comprehension(compiler, expr, root, parts, final):
             if is_for:
                 return f(parts)
             fname = compiler.get_anon_var()
+            # As in a real Python comprehension, the first iterable
+            # is evaluated in the enclosing scope and passed in.
+            first_iter = arg_name = None
+            if parts[0].tag in ("for", "afor"):
+                first_iter = parts[0].value[1]
+                arg_name = compiler.get_anon_var()
+                parts[0] = Tag(parts[0].tag, [
+                    parts[0].value[0],
+                    Result() + asty.Name(first_iter, id=arg_name, ctx=ast.Load())])
             # Define the generator function.
             stmts = []
             ret = Result()
@@ -1063,7 +1077,7 @@ def compile_comprehension(compiler, expr, root, parts, final):
                 expr,
                 name=fname,
                 args=ast.arguments(
-                    args=[],
+                    args=[asty.arg(expr, arg=arg_name, annotation=None)] if arg_name else [],
                     vararg=None,
                     kwarg=None,
                     posonlyargs=[],
@@ -1086,8 +1100,7 @@ def compile_comprehension(compiler, expr, root, parts, final):
                 v1, v2 = f"{v1}: {v2}", f"{v1}, {v2}"
             else:
                 v1 = v2 = compiler.get_anon_var()
-            return ret + Result(expr =
-                asty.parse(expr,
+            result = (asty.parse(expr,
                     f"{fname}()"
                     if node_class is asty.GeneratorExp else
                     "{}{} {} for {} in {}(){}".format(
@@ -1098,6 +1111,13 @@ def compile_comprehension(compiler, expr, root, parts, final):
                         fname,
                         brackets[1]))
                 .body[0].value)
+            if first_iter is not None:
+                ret += first_iter
+                call = (result
+                    if node_class is asty.GeneratorExp
+                    else result.generators[0].iter)
+                call.args = [first_iter.force_expr]
+            return ret + Result(expr = result)
 
         # We can produce a real comprehension. Let enclosing scopes know
         # of any assignment expressions in it, which Python will leak
